@@ -19,6 +19,8 @@ package engine
 //@ interface (github.com/youzan/ZanRedisDB/engine.Iterator).RefKey func(it Iterator) []byte
 //@   requires 0 <= ghost(pos, it) && ghost(pos, it) < ghost(n, it)
 //@   ensures ord(result) == kord(it, ghost(pos, it))
+// (stored keys were produced by the rockredis encoders, C12: structurally decodable; spec collDecodeSafe of rockredis)
+//@   ensures collDecodeSafe(result)
 //@ interface (github.com/youzan/ZanRedisDB/engine.Iterator).Next func(it Iterator)
 //@   ensures old(ghost(pos, it)) < ghost(n, it) ==> ghost(pos, it) == old(ghost(pos, it)) + 1
 //@   ensures old(ghost(pos, it)) >= ghost(n, it) ==> ghost(pos, it) == old(ghost(pos, it))
